@@ -96,17 +96,17 @@ def autophase_oracle(tier, seed):
                 fails.append({"key": "C13:autophase-replay", "clause": "C13:autophase-replay", "ops": [{"shape": shape, "dim_pos": k}]})
         if len(shape) == 2:
             other = dims[1 - k]
-            for ref_idx in range(shape[1 - k]):
+            for ref_idx, deriv in [(r_, dv) for r_ in range(shape[1 - k]) for dv in (1, 2, 3)]:
                 with warnings.catch_warnings():
                     warnings.simplefilter("ignore")
-                    rr = dnp.autophase(d, dim="f2", reference_slice=(other, ref_idx))
-                    single = dnp.autophase(d[other, ref_idx], dim="f2")
+                    rr = dnp.autophase(d, dim="f2", reference_slice=(other, ref_idx), deriv=deriv)
+                    single = dnp.autophase(d[other, ref_idx], dim="f2", deriv=deriv)
                 n_eval += 1
                 t0, t1 = single.proc_attrs[-1][1]["phasetuples"][0]
                 want = dnp.phase(d, "f2", t0, t1)
                 if not np.allclose(rr.values, want.values, rtol=1e-6, atol=1e-8):
                     fails.append({"key": "C13:autophase-reference-slice", "clause": "C13:autophase-reference-slice",
-                                  "ops": [{"shape": shape, "dim_pos": k, "ref": ref_idx}]})
+                                  "ops": [{"shape": shape, "dim_pos": k, "ref": ref_idx, "deriv": deriv}]})
                     break
     # strongly mis-phased short spectra: the minimiser may end with a first-order angle beyond +-360 degrees; whatever it
     # records must reproduce its own output when replayed through phase()
